@@ -57,9 +57,9 @@ class Sessions(object):
             # every fifth session has already sent a NOTIFICATION that did not end it (a request queued by the application
             # handler, written when the next KEEPALIVE arrives): framing must be judged the same afterwards
             w.apply({'k': 'enqueue', 'items': [{'type': 'notification', 'msg': {'error': 6, 'sub_error': 4, 'data': b''}}]})
-            w.apply({'k': 'msg', 'c': c, 'm': 'KA'})
+            _, _, over = meter.meter().run(w.apply, {'k': 'msg', 'c': c, 'm': 'KA'}, budget=BUDGET)
             o = w.observe()
-            if o['st'] != 'ESTABLISHED':
+            if over or o['st'] != 'ESTABLISHED':
                 self.fresh()
                 return self.get()
         return w, c
@@ -77,6 +77,11 @@ def run_one(data, cuts, tid, shape, cutname, ref_payloads=None):
     w, c = SESS.get()
     M = meter.meter()
     k = w.conn(c)
+    if tid % 7 == 3:
+        # the application has queued an UPDATE that cannot be encoded (and one that can): whatever the agent does with them
+        # when the next KEEPALIVE arrives, the stream is handled as always and every chunk in bounded work
+        w.apply({'k': 'enqueue', 'items': [{'type': 'update', 'msg': {'attr': {1: 0, 2: [(2, [65001])], 3: 'not-an-address'}, 'nlri': ['10.66.0.0/16']}},
+                                           {'type': 'update', 'msg': {'attr': {1: 0, 2: [(2, [65001])], 3: '10.0.0.1'}, 'nlri': ['10.67.0.0/16']}}]})
     bounds = sorted(set(c for c in cuts if 0 < c < len(data))) + [len(data)]
     lines = [{'tid': tid, 'i': 0, 'k': 'stream', 'bytes': list(data), 'shape': shape, 'cut': cutname}]
     ext, nots, pays = [], [], []
@@ -96,6 +101,8 @@ def run_one(data, cuts, tid, shape, cutname, ref_payloads=None):
         payeq = [True] * len(pays)
         if ref_payloads is not None:
             payeq = [j < len(ref_payloads) and ref_payloads[j] == p for j, p in enumerate(pays)]
+        if over:
+            SESS.w = None          # a call that had to be cut off leaves the agent in an unknown state: the next run starts afresh
         lines.append({'tid': tid, 'i': i + 1, 'k': 'chunk', 'avail': b, 'n': len(chunk), 'ext': list(ext), 'nots': list(nots),
                       'closed': bool(k.transport.disconnecting), 'work': work, 'over': bool(over), 'payeq': payeq,
                       'exc': len(o['errs']), 'shape': shape, 'cut': cutname})
